@@ -10,7 +10,14 @@
 //     (forwarder.NewHTTPProxy, plain requests and CONNECT tunnels): only one-sided bounds
 //     (cumulative bytes by time t ≤ B + k·w + R·t; an unthrottled direction finishes quickly),
 //     byte-for-byte equality by hash, and for a single connection the trace of call return times
-//     against the model.
+//     against the model;
+//   - "xfer" with deadlines armed (timed cases): 8-32 connections of one listener whose every
+//     Read/Write is preceded by SetWriteDeadline/SetReadDeadline/SetDeadline a few hundred ms
+//     ahead, and the full proxy with WriteTimeout/ReadTimeout and many concurrent downloads/
+//     uploads; far more data is on offer than the bound allows, the transfer is cut after ~2 s:
+//     same one-sided bound, and what arrived is a prefix of what was sent (the model's Conn waits
+//     for its tokens whatever deadline is armed: c20_wait_ignores_deadline; a wait that gives up
+//     breaks the bound: c20_unwaited_call_witness).
 package c20
 
 import (
@@ -67,6 +74,17 @@ type xferCase struct {
 	NoUp       bool   `json:"no_up,omitempty"`
 	NoDown     bool   `json:"no_down,omitempty"`
 	Seed       uint64 `json:"seed"`
+	// deadline-armed ("timed") cases: the transfer is cut after Millis ms instead of carrying a fixed
+	// total, the payload on offer is far above the bound, and what arrived must be a prefix of it.
+	DeadlineMs     int    `json:"deadline_ms,omitempty"`      // listener mode: deadline armed this far ahead before EVERY Read/Write on the accepted connection
+	DeadlineAPI    string `json:"deadline_api,omitempty"`     // "rw" = SetWriteDeadline / SetReadDeadline, "both" = SetDeadline
+	WriteTimeoutMs int    `json:"write_timeout_ms,omitempty"` // proxy modes: HTTPProxyConfig.WriteTimeout (deadline on the whole response)
+	ReadTimeoutMs  int    `json:"read_timeout_ms,omitempty"`  // proxy modes: HTTPProxyConfig.ReadTimeout (deadline on the whole request; stays armed in a tunnel)
+}
+
+// timed = a case in which deadlines are armed on the rate-limited connections.
+func (c xferCase) timed() bool {
+	return c.DeadlineMs > 0 || c.WriteTimeoutMs > 0 || c.ReadTimeoutMs > 0
 }
 
 // ---- model access ----
@@ -542,7 +560,10 @@ func Run(ctx *core.Ctx) {
 		"on limiters with rates 1 B/s-100 GiB/s, compared op by op with the integer model (±1 µs); non-trivial = some op had to wait. " +
 		"(b) constructor cases (ratelimit.NewListener, forwarder.Listener.Listen with SizeSuffix flag texts): limiter presence/rate/burst/sharing vs. the model's wiring; non-trivial = some limit > 0. " +
 		"(c) wall-clock transfers on loopback (ratelimit.NewListener; full proxy with plain requests and CONNECT tunnels) for limit pairs from {0,1,2,8 MiB/s}, 1-4 connections, both directions at once: " +
-		"cumulative bytes by every observation time t ≤ B + k·w + R·t, unthrottled direction < 1.5 s, hashes equal; non-trivial = some direction throttled. distinct = distinct canonical inputs")
+		"cumulative bytes by every observation time t ≤ B + k·w + R·t, unthrottled direction < 1.5 s, hashes equal; non-trivial = some direction throttled. " +
+		"(d) the same bound with deadlines armed on the rate-limited connections: 8-32 connections of one ratelimit.NewListener (and a single one with 256 KiB calls) moving 32 KiB pieces at 256 KiB/s-1 MiB/s for ~2 s, " +
+		"SetWriteDeadline / SetReadDeadline / SetDeadline 200-400 ms ahead re-armed before every call; the full proxy with WriteTimeout (24-32 concurrent downloads) and ReadTimeout (8-16 concurrent uploads; tunnels in the thorough tier); " +
+		"the payload on offer exceeds the bound by 16 MiB, the transfer is cut after ~2 s, what arrived is a prefix of what was sent. distinct = distinct canonical inputs")
 	ctx.Assume("golang.org/x/time/rate v0.12.0 is trusted; its reserve arithmetic is the modelled fact (float64 there, exact integers in the model; compared ±1 µs)")
 	ctx.Assume("wall-clock behaviour (timers, scheduler, kernel socket buffers) is sampled, not proved: only one-sided bounds are asserted; the model treats a call's I/O as atomic at one instant and calls as reaching the limiter in time order")
 	ctx.Assume("jitter: concurrent WaitN callers reach the bucket with time stamps out of order and x/time/rate credits every backward step twice (c20_throughput_bound_jitter_partial states the bound with that term); it cannot be observed from outside, the wall-clock bound allows 20 ms + 3 % of the elapsed time for it")
